@@ -151,6 +151,9 @@ func init() {
 		return nil
 	}
 	harnessAPI["symxAssert"] = func(fr *frame, args []value) value {
+		if fr.i.path.assertsOff {
+			return nil
+		}
 		t, _ := boolTerm(args[0])
 		fr.i.path.assert(t, argString(fr, args[1]))
 		return nil
@@ -254,6 +257,11 @@ func init() {
 		p.res.Events = append(p.res.Events, "")
 		idx := len(p.res.Events) - 1
 		p.pendingRecs = append(p.pendingRecs, pendingRec{idx, pieces})
+		return nil
+	}
+	// symxAssertionsOff(): crash-freedom mode - assertions of the harness become no-ops, only panics count
+	harnessAPI["symxAssertionsOff"] = func(fr *frame, args []value) value {
+		fr.i.path.assertsOff = true
 		return nil
 	}
 	// symxNoWitnessReplay(): passing paths of this harness depend on native nondeterminism (map order)
